@@ -362,9 +362,9 @@ def render(nodes, rnd, indent=""):
             out.append(indent + "}")
         else:
             decls = list(n["extras"])
-            imp = " !important" if n["imp"] else ""
+            imp = rnd.choice([" !important", " !important", "!important", " ! important", " !/* i */important", " ! IMPORTANT"]) if n["imp"] else ""
             # white space or a comment between a property name and its colon, and none after it, are all the same declaration
-            colon = rnd.choice([": ", ": ", ": ", ":", " : ", "\n:", "/**/:", " :"]) if n.get("oddcolon", True) else ": "
+            colon = rnd.choice([": ", ": ", ": ", ":", " : ", "\n:", "/**/:", " :", " /* c */ : "]) if n.get("oddcolon", True) else ": "
             if n["text"] is not None:
                 if n["dup"]:
                     decls.insert(0, "color: #010203" + imp)      # an earlier declaration that the last one overrides
@@ -700,6 +700,62 @@ def flatten_sheet(css_text, ids):
     return items
 
 
+def comment_audit(css_in, css_out):
+    """C09: every comment of the input is in the output and none is added - counted on the raw token stream (all blocks and
+    functions, recursively), independently of any declaration parser.  Returns (lost_known, lost_other, gained):
+    lost_known = lost comments that sat where a declaration parser does not keep them (between a property name and its colon,
+    between '!' and 'important') in a rule the tool re-serialises - a top-level :root / html block, or a rule whose own colour
+    value differs in the output (known finding F12); lost_other = any other lost comment."""
+    from collections import Counter
+
+    def raw(tokens, acc):
+        for t in tokens:
+            if t.type == "comment":
+                acc.append(t.value)
+            elif t.type in ("() block", "[] block", "{} block"):
+                raw(t.content, acc)
+            elif t.type == "function":
+                raw(t.arguments, acc)
+        return acc
+
+    cin = Counter(raw(tinycss2.parse_component_value_list(css_in), []))
+    cout = Counter(raw(tinycss2.parse_component_value_list(css_out), []))
+    lost, gained = cin - cout, cout - cin
+    if not lost and not gained:
+        return 0, 0, 0
+
+    def rules(nodes, top):
+        for n in nodes:
+            if n.type == "qualified-rule":
+                yield n, top
+            elif n.type == "at-rule" and n.lower_at_keyword in ("media", "supports") and n.content is not None:
+                yield from rules(tinycss2.parse_rule_list(n.content, skip_whitespace=True, skip_comments=False), False)
+
+    def colour_values(rule):
+        return [tinycss2.serialize(d.value).strip() for d in tinycss2.parse_declaration_list(rule.content, skip_whitespace=True, skip_comments=True)
+                if d.type == "declaration" and d.name == "color"]
+
+    known = Counter()
+    rin = list(rules(tinycss2.parse_stylesheet(css_in, skip_whitespace=True, skip_comments=False), True))
+    rout = list(rules(tinycss2.parse_stylesheet(css_out, skip_whitespace=True, skip_comments=False), True))
+    if len(rin) == len(rout):
+        for (a, top), (b, _t) in zip(rin, rout):
+            sel = tinycss2.serialize(a.prelude).strip().lstrip("\ufeff")
+            if (top and sel in (":root", "html")) or colour_values(a) != colour_values(b):
+                seen = Counter()
+                for d in tinycss2.parse_declaration_list(a.content, skip_whitespace=True, skip_comments=False):
+                    if d.type == "comment":
+                        seen[d.value] += 1
+                    elif d.type == "declaration":
+                        seen.update(raw(d.value, []))
+                    elif d.type == "at-rule":
+                        seen.update(raw(d.prelude, []))
+                        seen.update(raw(d.content or [], []))
+                known += Counter(raw(a.content, [])) - seen
+    lost_known = lost & known
+    return sum(lost_known.values()), sum((lost - lost_known).values()), sum(gained.values())
+
+
 def effective_colours(css_text, prop="color"):
     """selector -> effective text colour text in a stylesheet (last color declaration, custom properties from
     top-level :root/html blocks, var() with fallbacks), via tinycss2"""
@@ -766,7 +822,10 @@ def compact_sheet(n, rnd):
     for nd in nodes:
         decls = list(nd["extras"]) + ["color:" + nd["text"][1]] + (["background-color:" + nd["bg"][1]] if nd["bg"] else [])
         out.append(nd["sel"] + "{" + ";".join(decls) + "}")
-    return nodes, "".join(out)
+    # statements a minifier leaves in front, glued to the first rule (no white space after the semicolon)
+    prefix = rnd.choice(["", "@charset \"iso-8859-1\";", "@charset \"utf-8\";", "@import url(x.css);", "@charset \"windows-1252\";@import \"a.css\";",
+                         "@charset \"shift_jis\";", "@namespace svg url(http://www.w3.org/2000/svg);"])
+    return nodes, prefix + "".join(out)
 
 
 def positional_sheet(k1, k2, k3, minified, rnd):
